@@ -120,8 +120,11 @@ Definition exn_eqb (a b : exn) : bool :=
      fl_rename_check    set_property('name') / rename refuse a name used in the element's scope (proposed_fixes/C07-3)
      fl_link_refuse     remove_link refuses a link that carries a service port (C07-4)
      fl_skip_gone       _disconnect_from_services skips an interface removed by an earlier disconnection (C07-5)
-     fl_connect_names   connect_interface refuses a derived port / link name already in use (C07-6) *)
-Record flags := mkFlags { fl_rename_check : bool; fl_link_refuse : bool; fl_skip_gone : bool; fl_connect_names : bool }.
+     fl_connect_names   connect_interface refuses a derived port / link name already in use (C07-6)
+     fl_comp_precheck   add_component_sliver validates the ids it is going to add before it adds anything (C09-6, 94aa751)
+     fl_connect_undo    connect_interface removes the new service port when its link cannot be made (C09-7, 7b7379b) *)
+Record flags := mkFlags { fl_rename_check : bool; fl_link_refuse : bool; fl_skip_gone : bool; fl_connect_names : bool;
+                          fl_comp_precheck : bool; fl_connect_undo : bool }.
 
 Record st := mkSt { sg : graph; sdr : list str }.
 Inductive res (A : Type) := Ok (a : A) | Err (e : exn).
